@@ -77,6 +77,8 @@ def _load():
             raise AnalysisError(f"scipy fit keyword grammar anchor {needle!r} not found in _distn_infrastructure.py")
     _cache["shapes"] = shapes
     _cache["dir"] = d
+    _cache["gens"] = gens
+    _cache["inst"] = inst
     return _cache
 
 
@@ -108,4 +110,64 @@ def all_fit_keys(dist):
     out = set()
     for i in range(len(shapes(dist)) + 2):
         out |= fit_keys_for_slot(dist, i)
+    return out
+
+
+def _own_nodes(fn):
+    """nodes of a function body without those of nested functions / lambdas / classes"""
+    stack = list(fn.body)
+    while stack:
+        n = stack.pop()
+        yield n
+        for c in ast.iter_child_nodes(n):
+            if isinstance(c, (ast.FunctionDef, ast.AsyncFunctionDef, ast.Lambda, ast.ClassDef)):
+                continue
+            stack.append(c)
+
+
+def fit_transforms(dist):
+    """Slots of ``dist`` (positional names: shapes..., 'loc', 'scale') for which the family's OWN ``fit`` (an override of
+    rv_continuous.fit in its *_gen class) hands back something else than the value it was told to hold fixed.
+
+    Positive evidence only: the override returns a tuple whose element for the slot is a local name N, some assignment
+    gives N the fixed keyword's value (``N = floc`` or ``N = floc if ... else ...``) and a LATER assignment rewrites it
+    from itself (``N = g(N)``).  Returns {slot: (line, source of the rewriting assignment)}; a family without an override
+    (the generic fit restores fixed values itself) gives {}."""
+    c = _load()
+    gen = c["gens"].get(c["inst"].get(dist))
+    if gen is None:
+        raise AnalysisError(f"scipy distribution {dist} not found in _continuous_distns.py")
+    fit = next((m for m in gen.body if isinstance(m, ast.FunctionDef) and m.name == "fit"), None)
+    if fit is None:
+        return {}
+    sig = positional_signature(dist)
+    out = {}
+    assigns = []  # (lineno, name, value node)
+    for n in _own_nodes(fit):
+        if isinstance(n, ast.Assign) and len(n.targets) == 1 and isinstance(n.targets[0], ast.Name):
+            assigns.append((n.lineno, n.targets[0].id, n.value, n))
+    fixed_names = {"floc", "fscale", "fshape", "fc", "fa", "fs", "fkappa"} | {f"f{x}" for x in sig}
+
+    def holds_fixed(v):
+        if isinstance(v, ast.Name):
+            return v.id in fixed_names
+        if isinstance(v, ast.IfExp):
+            return holds_fixed(v.body) or holds_fixed(v.orelse)
+        if isinstance(v, ast.BoolOp):
+            return any(holds_fixed(x) for x in v.values)
+        return False
+    for n in _own_nodes(fit):
+        if not (isinstance(n, ast.Return) and isinstance(n.value, ast.Tuple) and len(n.value.elts) == len(sig)):
+            continue
+        for slot, el in zip(sig, n.value.elts):
+            if not isinstance(el, ast.Name):
+                continue
+            mine = sorted((a for a in assigns if a[1] == el.id), key=lambda a: a[0])
+            first_fixed = next((a for a in mine if holds_fixed(a[2])), None)
+            if first_fixed is None:
+                continue
+            for ln, _nm, v, node in mine:
+                if ln > first_fixed[0] and ln < n.lineno and isinstance(v, (ast.BinOp, ast.Call)) \
+                        and any(isinstance(x, ast.Name) and x.id == el.id for x in ast.walk(v)):
+                    out[slot] = (ln, ast.unparse(node))
     return out
